@@ -65,12 +65,25 @@ func parseVersion1(reader *bufio.Reader) (*Header, error) {
 		return nil, ErrCantReadProtocolVersionAndCommand
 	}
 	tokens := strings.Split(line[:len(line)-2], SEPARATOR)
-	if len(tokens) < 6 {
+	if len(tokens) < 2 || tokens[0] != string(SIGV1) {
 		state.ProxyErrInvalidHeader.Inc(1)
 		return nil, ErrCantReadProtocolVersionAndCommand
 	}
 
 	header := initVersion1()
+
+	// "PROXY UNKNOWN": the rest of the line up to CRLF must be ignored and the
+	// real connection endpoints are used
+	if tokens[1] == "UNKNOWN" {
+		header.TransportProtocol = UNSPEC
+		state.ProxyNormalV1Header.Inc(1)
+		return header, nil
+	}
+
+	if len(tokens) != 6 {
+		state.ProxyErrInvalidHeader.Inc(1)
+		return nil, ErrCantReadProtocolVersionAndCommand
+	}
 
 	// Read address family and protocol
 	switch tokens[1] {
@@ -79,7 +92,8 @@ func parseVersion1(reader *bufio.Reader) (*Header, error) {
 	case "TCP6":
 		header.TransportProtocol = TCPv6
 	default:
-		header.TransportProtocol = UNSPEC
+		state.ProxyErrInvalidHeader.Inc(1)
+		return nil, ErrUnsupportedAddressFamilyAndProtocol
 	}
 
 	// Read addresses and ports
@@ -151,8 +165,10 @@ func parseV1PortNumber(portStr string) (uint16, error) {
 
 func parseV1IPAddress(protocol AddressFamilyAndProtocol, addrStr string) (addr net.IP, err error) {
 	addr = net.ParseIP(addrStr)
-	tryV4 := addr.To4()
-	if (protocol == TCPv4 && tryV4 == nil) || (protocol == TCPv6 && tryV4 != nil) {
+	// an IPv6 address (including an IPv4-mapped one) is written with colons,
+	// an IPv4 address is not
+	isV6Text := strings.Contains(addrStr, ":")
+	if addr == nil || (protocol == TCPv4 && isV6Text) || (protocol == TCPv6 && !isV6Text) {
 		err = ErrInvalidAddress
 	}
 	return
